@@ -156,6 +156,25 @@ func generate(r *runner) {
 		r.runSet(fs, txnsFor(urls, cnt == 3 && i%4 == 0), cnt == 3, "random")
 	}
 
+	// 4b. many flows on ONE node (1..9 unconstrained user flows on a/* or a/{p} or a)
+	//     plus flows on deeper / sibling nodes that match the same URLs: the
+	//     selections of different transactions are assembled from the same
+	//     per-node lists and must stay independent of each other
+	for _, base := range []string{"a/*", "a/{p}", "*"} {
+		for cnt := 1; cnt <= o.Scale(9, 9, 9); cnt++ {
+			t := []string{}
+			for i := 0; i < cnt; i++ {
+				t = append(t, base)
+			}
+			t = append(t, "a/a", "a/b", "a/b/*")
+			fs := mkFlows(t, nil)
+			if cnt%2 == 0 {
+				fs[0] = withConstraint(fs[0], constraintVariants[1%len(constraintVariants)])
+			}
+			r.runSet(fs, txnsFor([]string{"a/a", "a/b", "a/b/a", "a/c", "a/a"}, false), false, "many-on-one-node")
+		}
+	}
+
 	// 5. malformed / odd declarations: errors and odd shapes must be modelled too
 	odd := [][]string{
 		{"a/*/b"}, {"a//b"}, {"*/*"}, {"a/*/*"}, {"*.*"}, {"a/{p}", "a/{q}"}, {"a/{p}/b", "a/{q}"},
